@@ -35,6 +35,7 @@ func runC04(c *Ctx) {
 	c04R4(c, p, "C04.R4")
 	c04R5(c, p, "C04.R5")
 	c04R8(c, p, "C04.R8")
+	epNullRule(c, p, "C04.R9.ep-null")
 	// the en-passant key is part of the hash: whether the square is recorded (and hashed) is decided by CanEnPassant
 	c02R2(c, p, "C04.R6.ep-recorded")
 	c02R7(c, p, "C04.R6.ep-capturable")
